@@ -125,6 +125,9 @@ def judge(rec, pint, got, cands, w, fields, cross, chains_len=None):
         return
     vals = {c for c in cands if not isinstance(c, str)}
     if got[0] == "ok":
+        if fields.get("built") == "code" and fields.get("redefinition"):
+            # Context.redefine() parses its line with floats whatever the registry's numeric type
+            got = ("ok", float(got[1]))
         if not any(equal(got[1], c) for c in vals):
             rec.violation("value-not-from-a-shortest-chain",
                           dict(w, got=str(got[1]), acceptable=[str(c) for c in list(vals)[:4]]), **fields)
@@ -291,6 +294,14 @@ def gen_context_file(rng):
         return None
     ctxs = []
     lines = []
+    recipes = []      # the same contexts as data, for construction in code (Context + add_transformation)
+    # derived dimension NAMES for some nodes: a rule endpoint may be written with either spelling
+    alias_of = {}
+    dim_lines = []
+    for i, nd in enumerate(nodes):
+        if rng.random() < 0.6:
+            alias_of[nd] = f"[ctal{i}]"
+            dim_lines.append(f"[ctal{i}] = {nd}")
     nctx = rng.randint(2, 4)
     redefinable = [c for c, t in g.units.items() if t["kind"] == "mult" and t["factor"] > 0
                    and all(F(v).denominator == 1 for v in t["root"].values()) and t["root"]]
@@ -300,13 +311,20 @@ def gen_context_file(rng):
         pdef = rng.randint(2, 9)
         head = f"@context({'p=' + str(pdef) if has_p else ''}) {name} = ct{ci}" if has_p else f"@context {name} = ct{ci}"
         body = []
+        recipe = dict(name=name, alias=f"ct{ci}", defaults={"p": pdef} if has_p else {}, rules=[], redefs=[])
         nrules = rng.randint(1, 5)
+        used_edges = set()
         for ri in range(nrules):
             a, b = rng.sample(nodes, 2)
+            if (a, b) in used_edges or (b, a) in used_edges:
+                # one rule per edge and context: which of two rules for the same edge of ONE context
+                # wins is not stated (and differs between text and code once spellings differ)
+                continue
+            used_edges.add((a, b))
             ua, ub = rng.choice(pools[a]), rng.choice(pools[b])
             k = rng.choice((2, 3, 5, 7, "1 / 2", "3 / 4"))
             form = rng.randrange(4)
-            if has_p and ri == 0:
+            if has_p and not body:
                 form = 2     # a declared parameter must occur in some equation
             if form == 0:
                 eq = f"value * {k} * {ub} / {ua}"
@@ -320,15 +338,44 @@ def gen_context_file(rng):
             if arrow == "<->" and form in (0, 2, 3):
                 # a bidirectional monomial must be dimensionally valid both ways: only 1/value form is
                 arrow = "->"
-            body.append(f"    {a} {arrow} {b}: {eq}")
+            sa = alias_of[a] if a in alias_of and rng.random() < 0.4 else a
+            sb = alias_of[b] if b in alias_of and rng.random() < 0.4 else b
+            body.append(f"    {sa} {arrow} {sb}: {eq}")
+            recipe["rules"].append((sa, sb, arrow == "<->", form if not (form == 2 and not has_p) else 3, k, ua, ub))
         if redefinable and rng.random() < 0.4:
             u = rng.choice(redefinable)
             t = g.units[u]
             expr = " * ".join(f"{r} ** {int(e)}" if e > 0 else f"{r} ** ({int(e)})" for r, e in t["root"].items())
             body.append(f"    {u} = {rng.randint(2, 9)} / {rng.randint(2, 9)} * {expr}")
+            recipe["redefs"].append(body[-1].strip())
         lines += [head] + body + ["@end"]
         ctxs.append((name, f"ct{ci}", has_p, pdef))
-    return g, g.text() + "\n".join(lines) + "\n", ctxs, pools
+        recipes.append(recipe)
+    base_text = g.text() + "\n".join(dim_lines) + "\n"
+    return g, base_text + "\n".join(lines) + "\n", ctxs, pools, base_text, recipes
+
+
+def build_in_code(pint, ureg, recipes):
+    """The generated contexts again, as Context objects built with add_transformation / redefine."""
+    def make(form, k, ua, ub):
+        kf = F(k.replace(" ", "")) if isinstance(k, str) else F(k)
+        if form == 0:
+            return lambda ureg, value, **kw: value * kf * ureg.Unit(ub) / ureg.Unit(ua)
+        if form == 1:
+            return lambda ureg, value, **kw: kf * ureg.Unit(ua) * ureg.Unit(ub) / value
+        if form == 2:
+            return lambda ureg, value, p, **kw: value * p * ureg.Unit(ub) / ureg.Unit(ua)
+        return lambda ureg, value, **kw: value ** 2 * kf * ureg.Unit(ub) / ureg.Unit(ua) ** 2
+    for r in recipes:
+        ctx = pint.Context(r["name"], aliases=(r["alias"],), defaults=dict(r["defaults"]))
+        for sa, sb, bidir, form, k, ua, ub in r["rules"]:
+            fn = make(form, k, ua, ub)
+            ctx.add_transformation(sa, sb, fn)
+            if bidir:
+                ctx.add_transformation(sb, sa, fn)
+        for line in r["redefs"]:
+            ctx.redefine(line)
+        ureg.add_context(ctx)
 
 
 def run_generated(spec, rec, rng, pint, R, CM):
@@ -336,9 +383,16 @@ def run_generated(spec, rec, rng, pint, R, CM):
         made = gen_context_file(rng)
         if made is None:
             continue
-        g, text, ctxs, pools = made
+        g, text, ctxs, pools, base_text, recipes = made
+        built = "text" if gi % 2 == 0 else "code"
+        rec.observe("context_construction", built)
         try:
-            ureg = pint.UnitRegistry(text.splitlines(), non_int_type=F, cache_folder=None)
+            if built == "text":
+                ureg = pint.UnitRegistry(text.splitlines(), non_int_type=F, cache_folder=None)
+            else:
+                ureg = pint.UnitRegistry(base_text.splitlines(), non_int_type=F, cache_folder=None)
+                build_in_code(pint, ureg, recipes)
+                rec.count("registries_with_contexts_built_in_code")
         except Exception as e:  # noqa: BLE001
             rec.violation("generated-file-refused", {"text": text, "err": repr(e)[:300]}, context="generated",
                           form="load", workload="generated")
@@ -440,7 +494,7 @@ def run_generated(spec, rec, rng, pint, R, CM):
             w = {"text": text, "entries": [(n, {k: str(v) for k, v in kw.items()}) for n, _, kw in entries],
                  "form": form, "src": f"{x} {ua}", "dst": ub}
             fields = dict(context="generated", form=form, workload="generated", redefinition=has_redef,
-                          depth=min(len(entries), 3))
+                          depth=min(len(entries), 3), built=built)
             judge(rec, pint, got, cands, w, fields, cross)
             if cross and CM.LAST["steps"] >= 2:
                 rec.count("multi_step_chains")
